@@ -772,6 +772,8 @@ fn do_crash() -> ! {
     let gl = g();
     let pid = gl.slots[my].pid;
     trace(S_CRASH, pid as i64, 0, 0);
+    crate::hist::log("crash", pid as i64, 0, 0, "");
+    let gl = g();
     gl.stats.f_crash += 1;
     gl.procs[pid as usize].crashed = true;
     gl.procs[pid as usize].crash_at = u64::MAX;
@@ -800,6 +802,7 @@ fn do_crash() -> ! {
             None => break,
         }
     }
+    crate::hist::log("crash.reaped", pid as i64, 0, 0, "");
     let gl = g();
     gl.slots[my].st = St::Crashed;
     progress();
